@@ -1,0 +1,17 @@
+//go:build verif
+
+package client
+
+import "github.com/enfein/mieru/v3/pkg/protocol"
+
+// VerifMux returns the multiplexer of a started client.
+// It only exists in builds with the "verif" tag (simulation harness).
+func VerifMux(c Client) *protocol.Mux {
+	mc, ok := c.(*mieruClient)
+	if !ok {
+		return nil
+	}
+	mc.mu.Lock()
+	defer mc.mu.Unlock()
+	return mc.mux
+}
